@@ -279,7 +279,8 @@ def multiply (cap : Nat) (a b : Val N) : VRes N (Val N) :=
   | (num x, num y) => .ok (num (mul x y))
   | (str s, num y) =>
     if geZero y then
-      let n := toUSize y
+      -- repaired code: nothing to repeat in an empty string, however large the count
+      let n := if s.isEmpty then 0 else toUSize y
       if s.length * n > cap then .resource else .ok (str (repeatStr s n))
     else .ok undef
   | _ => .ok undef
